@@ -69,7 +69,7 @@ def same(a, b):
 def replay_run(sampler):
     def replay(model=None):
         tried = []
-        for (a, b, c) in ((3, 2, 2), (2, 0, 2), (1, 0, 1), (4, 1, 3)):
+        for (a, b, c) in ((3, 2, 2), (2, 0, 2), (1, 0, 1), (4, 1, 3)) + (((0, 2, 3), (0, 1, 1)) if sampler == "hmc" else ()):
             case = {"case": "run_continuation", "sampler": sampler, "a": a, "b": b, "c": c, "seed": 5}
             nat = native(case)
             bad = []
@@ -84,11 +84,15 @@ def replay_run(sampler):
                     long = f(r["long"])
                     nch, dim = 3, 2
                     manual = [f(m) for m in r.get("manual", [])]
+                    if "manual_after" in r and f(r["manual_after"]) != pos:
+                        bad.append(prof)  # the sampler is not left where a + b hand-made transitions leave it
                     for k, m in enumerate(manual):  # run(a, b) = positions after transitions b+1 .. b+a made by hand
                         for ch in range(nch):
                             if first[(ch * a + k) * dim:(ch * a + k + 1) * dim] != m[ch * dim:(ch + 1) * dim]:
                                 bad.append(prof)
                     for ch in range(nch):
+                        if a == 0:
+                            break
                         row_last = first[(ch * a + a - 1) * dim:(ch * a + a) * dim]
                         if row_last != pos[ch * dim:(ch + 1) * dim]:
                             bad.append(prof)
@@ -771,19 +775,20 @@ def None_ctx(eng):
 
 def c10_hmc_progress(out, tier, seed):
     eng = mir_load.load_engine()
-    cfgs = [(2, 4, 1, 1), (3, 4, 0, 2)] + ([(2, 5, 3, 1)] if tier == "thorough" else [])
+    cfgs = [(2, 4, 1, 1, "f32"), (3, 4, 0, 2, "f32"), (2, 4, 1, 1, "f64")] + ([(2, 5, 3, 1, "f32"), (3, 4, 0, 2, "f64")] if tier == "thorough" else [])
     u = MUnit(out, "C10", "c10_hmc_progress", eng, functions=["HMC::run_progress (+ closures)", "stats::MultiChainTracker::{new, step, max_rhat, rhat, stats}"],
-              bounds=["(chains, n_collect, n_discard, dim) in %s; T = backend element = f32" % (cfgs,)],
+              bounds=["(chains, n_collect, n_discard, dim, T = backend element) in %s; in the f64 configurations every conversion to f32 is an "
+                      "uninterpreted rounding" % (cfgs,)],
               assumptions=ASSUME + ["indicatif no-op; RunStats::from_f32_view summarised"], out_of_scope=["terminal output"])
-    eng.typemap["T"] = "f32"
-    eng.typemap["FloatElem"] = "f32"
-
     store = {}
     stats_recorder(eng, store)
     rp = replay_progress_stats("hmc")
     fn = eng.find_fn("HMC::run_progress")
-    for (nc, ncol, ndis, dim) in cfgs:
+    for (nc, ncol, ndis, dim, prec) in cfgs:
         hist = []
+        eng.typemap["T"] = prec
+        eng.typemap["FloatElem"] = prec
+        eng.narrowing = prec == "f64"
 
         def step(e, callee, args, nc=nc, dim=dim):
             me = args[0]
@@ -805,7 +810,7 @@ def c10_hmc_progress(out, tier, seed):
             return r, [list(h) for h in hist]
         for ctx, res in eng.explore(run, max_paths=200):
             u.paths += 1
-            inst = "chains=%d n_collect=%d n_discard=%d dim=%d" % (nc, ncol, ndis, dim)
+            inst = "chains=%d n_collect=%d n_discard=%d dim=%d precision=%s" % (nc, ncol, ndis, dim, prec)
             if isinstance(res, Exception):
                 u.holds(ctx, "HMC progress mode neither panics nor errs", False, rp, inst + ": %r" % (res,))
                 continue
@@ -820,6 +825,7 @@ def c10_hmc_progress(out, tier, seed):
                 conj = [same(a[c, k, i], hs[ndis + k][c * dim + i]) for c in range(nc) for k in range(ncol) for i in range(dim)]
                 u.holds(ctx, "HMC::run_progress returns exactly the draws run would return", z3.And(conj), rp, inst)
                 stats_obligation(u, ctx, store, a, r.fields[0].fields[1], rp, inst)
+    eng.narrowing = False
     u.done()
 
 
